@@ -383,6 +383,8 @@ func c03examples(c Case, env *Env, res *Result) {
 		{"one final string chunk of 40000 characters (lengths are unsigned 16-bit)", "S x9c x40 " + strings.Repeat("a", 40000), strings.Repeat("a", 40000), nil},
 		{"a non-final string chunk of 65535 characters and a final one of 33000", "R xff xff " + strings.Repeat("b", 65535) + " S x80 xe8 " + strings.Repeat("c", 33000), strings.Repeat("b", 65535) + strings.Repeat("c", 33000), nil},
 		{"one final binary chunk of 40000 octets", "B x9c x40 " + strings.Repeat("d", 40000), bytes.Repeat([]byte("d"), 40000), nil},
+		{"class definition that lists the fields in another order than the Go struct declares them", "C x05 Inner x92 x01 s x01 a x60 x01 q x95", &zoo.Inner{A: 5, S: "q"}, nil},
+		{"class definition with the fields of an eight-field struct in reverse order", "C x03 Shr x98 x01 x x02 pS x02 p2 x02 p1 x02 m2 x02 m1 x02 s2 x02 s1 x60 N N N N N N x7a x91 x92 x7a x91 x92", &zoo.Shr{S1: []int32{1, 2}, S2: []int32{1, 2}}, nil},
 		{"class definition in front of an int field value", "C x0a LinkedList x92 x04 head x04 tail x60 C x0d example.Color x91 x04 name x91 N", &exList{Head: 1}, []string{"choice:def.float"}},
 	}
 	for i, e := range exs {
